@@ -371,3 +371,6 @@ fn file0() -> FileId {
     // FileId's field is private to rssl-text; it is a plain u32 newtype
     unsafe { std::mem::transmute::<u32, FileId>(0) }
 }
+
+// prepare_tokens (C14 mechanism: the parser receives the non-trivia tokens only) was tried here: `iter().cloned().filter_map().collect()`
+// over three tokens needs more than 22 GB in CBMC (Token is a 200-variant enum with String payloads, cloned per element) - not decided.
